@@ -92,6 +92,8 @@ func init() {
 		Prepare: prepareAll,
 		Select: []Selector{
 			{Units: specPkgRe + `stringToDFA$`},
+			// a pattern's automaton is what the pipeline builds from the parsed pattern, nothing taken away afterwards
+			{Units: specPkgRe + `regexToDFA$`},
 			{Units: specPkgRe + `Spec\.DFA(\$\d+)?$`},
 			{Units: specPkgRe + `SymbolTable\.Definitions(\$1)?$`, Kinds: `^(post|inv-init|inv-pres|refine|vacuity)$`},
 		},
